@@ -495,6 +495,13 @@ def rule_output(ck):
         val = fl.expand(n.stmt.value, n)
         ok = key == f"__elem__({infra}.station_ids)" and f"{arr}[__idx__({infra}.station_ids)]" in canon(val)
         ck.require(ok, "C07.R6", f, n.stmt, ok="station id -> the array entry at the same position", bad="the output maps a station to an entry of another position", sink="format:pairing")
+        # the entry is handed on unchanged: a scalar becomes the one-period list [x], a row its own list - never repeated, scaled or padded
+        # (the bounds of R2 - remaining demand, estimator bound - are computed for exactly the periods the algorithm returned)
+        cell = f"{arr}[__idx__({infra}.station_ids)]"
+        exact = canon(val) in (f"[{cell}]", f"{cell}.tolist()", f"list({cell})")
+        ck.require(exact, "C07.R6", f, n.stmt, ok="the entry is passed on as computed (one period for a one-dimensional schedule)",
+                   bad=f"the output entry `{src(val, 70)}` is not the computed entry itself: a one-period rate held for several periods exceeds the per-period bounds "
+                       f"it was computed under", sink="format:exact")
     if loops:
         te = [s for s in loops[0].succ if s.kind == "edge" and s.label][0]
         ck.require(loops[0] not in fl.cfg.reach(te, avoid=set(sts) | {fl.cfg.raise_exit}), "C07.R6", f, "every station gets an entry", ok="no station skipped",
